@@ -87,9 +87,14 @@ def run(chk):
             elif isinstance(st.value, (ast.List, ast.Dict)) and not (st.value.elts if isinstance(st.value, ast.List) else st.value.keys):
                 after[fld] = []
     # (fields the Summarize slice fills from the grouping columns stay at their empty default: the ungrouped case)
+    # a table that is grouped but not summarised yet: group_by only records the pending grouping (partition_by); a
+    # filter there still acts on the input rows
+    pending = dict(fresh)
+    pending[f"{qname}.partition_by"] = [Sym("g")]
     try:
         d_after = filter_destinations(f_stmts, qname, scfg.subject, after)
         d_before = filter_destinations(f_stmts, qname, scfg.subject, fresh)
+        d_pending = filter_destinations(f_stmts, qname, scfg.subject, pending)
     except Unsupported as u:
         raise AnalysisError(f"C04/R2: cannot evaluate the SQL Filter slice: {u}") from u
     node_f = f_stmts[0] if f_stmts else scfg.func
@@ -98,6 +103,10 @@ def run(chk):
            f"after a summarize without (non-constant) grouping columns the SQL filter puts its predicates into {sorted(set().union(*d_after)) if d_after else '?'} "
            f"(the Summarize slice only guarantees {sorted(definite) or 'nothing'}): a predicate on an aggregate lands in WHERE and the statement is "
            "invalid / filters the input rows; it must go to HAVING")  # fmt: skip
+    chk.ob("R2", sql, node_f, "Filter between group_by and summarize -> query.where",
+           bool(d_pending) and all(d == {f"{qname}.where"} for d in d_pending),
+           f"a filter on a grouped, not yet summarised table puts its predicates into {sorted(set().union(*d_pending)) if d_pending else '?'}: "
+           "HAVING on a bare column keeps or drops whole groups by one arbitrary row and the aggregates see unfiltered rows")  # fmt: skip
     chk.ob("R2", sql, node_f, "Filter on a fresh query -> query.where",
            bool(d_before) and all(d == {f"{qname}.where"} for d in d_before),
            f"a filter before any summarize puts its predicates into {sorted(set().union(*d_before)) if d_before else '?'} instead of WHERE")  # fmt: skip
